@@ -7,7 +7,8 @@
   Model: `Rfc2822.parse_from_rfc2822` = `DateTime::parse_from_rfc2822`, `Rfc2822.to_rfc2822` =
   `DateTime::to_rfc2822` (Model/Rfc2822.lean over Model/Parse, Scan, ParsedResolve, Format).
 -/
-import Chrono.Proofs.Rfc2822ResL
+import Chrono.Proofs.Rfc2822StdL
+import Chrono.Extracted.Rfc2822
 
 namespace Chrono.Props.C11
 open Chrono Chrono.M Chrono.Spec Chrono.Spec.Rfc2822 Chrono.Proofs.Rfc2822
@@ -58,6 +59,57 @@ theorem denotation_unique (f : Fields) (z z' : Zoned) (h : Denotes f z) (h' : De
   simp only [] at hu a1 b1
   rw [hu, a1, b1]
 
+/-! ## the writer's standard form and the round trip -/
+
+/-- **writer_form_in_grammar.**  The standard form `Www, D Mon YYYY HH:MM:SS +HHMM` of any fields
+it can show (day-name, year 0–9999, seconds 00–60, whole-minute offset of less than a day) is a
+string of the reader's grammar spelling exactly those fields. -/
+theorem writer_form_in_grammar (f : Fields) (h : StdFields f) : Rfc2822 (stdText f) f :=
+  std_in_grammar f h
+
+/-- **roundtrip_partial.**  If `to_rfc2822` writes the standard form of valid fields `f`, parsing that
+text back succeeds and returns the one value that denotes `f` (same offset, instant `wall clock −
+offset` to whole seconds, leap second kept) — in particular the value `z0` = `z` truncated to whole
+seconds, whenever `f` are the wall-clock fields of `z` (`Denotes f z0`).
+MISSING for the unconditional `roundtrip`: the theorem `writer_shape` — for every well-formed `z` with
+wall-clock year 0–9999 and whole-minute offset, `to_rfc2822 z = .ok (stdText f)` for the wall-clock
+fields `f` of `z` (hypothesis `hw` here).  It is not proved; it is kernel-evaluated on the samples of
+`writer_shape_samples` and compared on every run: model text vs implementation text, and the
+implementation's text vs an independently formatted standard form, on 60 000 / 300 000 values. -/
+theorem roundtrip_partial (z : Zoned) (f : Fields) (hs : StdFields f) (hv : Valid f)
+    (hw : Rfc2822.to_rfc2822 z = .ok (stdText f)) :
+    ∃ z', Rfc2822.roundtrip z = .ok (.ok (.ok z')) ∧ Denotes f z' ∧ ∀ z0, Denotes f z0 → z' = z0 := by
+  obtain ⟨z', h1, h2⟩ := reader_accepts_spec (stdText f) f (std_in_grammar f hs) hv
+  refine ⟨z', ?_, h2, fun z0 h0 => denotation_unique f z' z0 h2 h0⟩
+  unfold Rfc2822.roundtrip
+  rw [hw]
+  simp only [h1]
+
+/-- **writer_shape_samples** (kernel evaluation of the writer model on boundary values, not a
+universal statement): 1970-01-01T00:00Z shown at +01:00; the leap second 2016-12-31T23:59:60Z shown at
++05:30 (next day, second 60 kept); the first and the last second the format can show (year 0000 at
++00:00, 9999-12-31 at −23:59); outside years 0–9999 the call panics, as documented. -/
+theorem writer_shape_samples :
+    Rfc2822.to_rfc2822 ⟨⟨dateOfYo 1970 1, ⟨0, 0⟩⟩, 3600⟩
+      = .ok (stdText ⟨some .thu, 1, 1, 1970, 1, 0, some 0, 3600⟩) ∧
+    Rfc2822.to_rfc2822 ⟨⟨dateOfYo 2016 366, ⟨86399, 1500000000⟩⟩, 19800⟩
+      = .ok (stdText ⟨some .sun, 1, 1, 2017, 5, 29, some 60, 19800⟩) ∧
+    Rfc2822.to_rfc2822 ⟨⟨dateOfYo 0 1, ⟨0, 999999999⟩⟩, 0⟩
+      = .ok (stdText ⟨some .sat, 1, 1, 0, 0, 0, some 0, 0⟩) ∧
+    Rfc2822.to_rfc2822 ⟨⟨dateOfYo 9999 365, ⟨86399, 0⟩⟩, -86340⟩
+      = .ok (stdText ⟨some .fri, 31, 12, 9999, 0, 0, some 59, -86340⟩) ∧
+    Rfc2822.to_rfc2822 ⟨⟨dateOfYo 9999 365, ⟨86399, 0⟩⟩, 60⟩ = .panic ∧
+    Rfc2822.to_rfc2822 ⟨⟨dateOfYo 0 1, ⟨0, 0⟩⟩, -60⟩ = .panic := by
+  decide +kernel
+
+/-- non-vacuity of `roundtrip_partial`: the leap-second sample meets every hypothesis -/
+example : StdFields ⟨some .sun, 1, 1, 2017, 5, 29, some 60, 19800⟩ ∧
+    Valid ⟨some .sun, 1, 1, 2017, 5, 29, some 60, 19800⟩ ∧
+    Rfc2822.to_rfc2822 ⟨⟨dateOfYo 2016 366, ⟨86399, 1500000000⟩⟩, 19800⟩
+      = .ok (stdText ⟨some .sun, 1, 1, 2017, 5, 29, some 60, 19800⟩) := by
+  refine ⟨⟨⟨_, rfl⟩, by decide, by decide, by decide, by decide, by decide, by decide, by decide, by decide,
+    ⟨60, rfl, by decide⟩, by decide, by decide, by decide⟩, by unfold Valid; decide, writer_shape_samples.2.1⟩
+
 /-! ## a contradicting day-name is rejected -/
 
 /-- **weekday_mismatch_rejected.**  A string of the grammar whose day-name is not the weekday of its
@@ -104,13 +156,19 @@ the zone and returns its offset, whatever follows (nothing, white space, a comme
 theorem zone_names (zz : List Nat) (off : Int) (h : Zone zz off) (rest : List Nat) (hr : NoAlphaHead rest) :
     Scan.timezone_offset_2822 (zz ++ rest) = .ok (rest, off) := (tz_spec h rest hr).1
 
-/-- the zone table of the specification is the table of RFC 2822 §4.3 as the code's `if` chain reads
-it, and the name tables extracted from the source are the specification's -/
+/-- **tables_ok** (re-checked on re-extracted data).  The zone table translated from the current
+`scan::timezone_offset_2822` source is exactly the specification's table of RFC 2822 §4.3 plus `z`
+(the same pairs, nothing else); the byte ranges of its single-letter arm are exactly the letters
+other than J and Z; the model's `if` chain reads every table name as its hours; and the day / month
+name tables extracted from the source are the specification's. -/
 theorem tables_ok :
-    (∀ e ∈ zoneTable, zoneSecs e.1 = some (e.2 * 3600)) ∧
+    (∀ e ∈ zoneTable, e ∈ Extracted.ZONE_2822) ∧
+    (∀ e ∈ Extracted.ZONE_2822, e ∈ zoneTable ∨ e = ([122], 0)) ∧
+    (∀ c < 256, (∃ r ∈ Extracted.MILITARY_2822, r.1 ≤ c ∧ c ≤ r.2) ↔
+      (isAlpha c ∧ lower c ≠ 106 ∧ lower c ≠ 122)) ∧
+    (∀ e ∈ Extracted.ZONE_2822, zoneSecs e.1 = some (e.2 * 3600)) ∧
     Extracted.SHORT_WEEKDAYS = dayNames ∧ Extracted.SHORT_MONTHS = monthNames := by
-  refine ⟨fun e he => (zone_table_secs e he).1, name_tables.1, name_tables.2.1⟩
-
+  refine ⟨by decide, by decide, by decide +kernel, by decide, name_tables.1, name_tables.2.1⟩
 
 /-! ## non-vacuity: concrete strings of the grammar with valid fields -/
 
